@@ -227,11 +227,14 @@ Proof.
   - apply fshift_throws.
   - apply stmt_throws_no_acc.
   - intros t s B H. apply no_acc_single. apply plain_not_name. eapply symbol_not_name; exact H.
-  - intros kw cond o B Hkw Hcond Hnt Ho.
-    apply (no_acc_cons _ _ cshift_plain fshift_throws).
-    + apply plain_not_name. apply keyword_not_name. exact Hkw.
+  - intros kw words cond o B Hkw Hwords Hcond Hnt Ho.
+    unfold no_throws_kw in Hnt. apply Forall_app in Hnt as [_ Hnt].
+    change (kw :: words ++ cond ++ [o]) with ((kw :: words) ++ cond ++ [o]).
+    apply (no_acc_app _ _ cshift_plain fshift_throws).
+    + apply (ctrl_words_no_acc _ _ cshift_plain fshift_throws); try assumption.
+      intros V HV. apply acc_cand_none, wlist_plain, HV.
     + apply (no_acc_app _ _ cshift_plain fshift_throws).
-      * destruct Hcond as [->|Hg]; [apply no_acc_nil | apply groups_throws_no_acc; assumption].
+      * destruct Hcond as [->|[Hg _]]; [apply no_acc_nil | apply groups_throws_no_acc; assumption].
       * apply no_acc_single. apply plain_not_name. eapply symbol_not_name; exact Ho.
   - intros pre B Hpre HB. apply (prefix_no_plain LJava); [exact Hpre | exact HB | apply cshift_plain | apply fshift_throws].
 Qed.
